@@ -51,7 +51,7 @@ static void havoc_state(void) {
   running = true; tracing = TRACING_INIT; truncateInputs = true; verif_thrown = false;
 #ifdef WITH_TRACE
   { size_t ds = nondet_size(); __CPROVER_assume(ds <= 1000000); debugInfo_size = ds; debugInfo = malloc((ds ? ds : 1) * sizeof(DebugEntry)); __CPROVER_assume(debugInfo != NULL);
-    g_fmt_calls = 0; g_first_nargs = 0; g_cur = 0; g_nargs_cur = 0; }
+    g_fmt_calls = 0; g_first_nargs = 0; g_cur = 0; g_nargs_cur = 0; g_fmt_truncates = false; }
 #endif
   g_io_calls = 0; g_ev_kind = EV_NONE; g_ev_file = 0; g_opens = 0; g_open_idx = -1; g_open_mode = 0; g_open_name = 0; g_ev_to_file = false; g_ev_byte = 0;
   __CPROVER_assume(cycles < (size_t)1 << 62);
@@ -260,7 +260,8 @@ TRACE_GHOST = r"""
 #define TRACING_INIT false
 #endif
 /* ghost log for trace text: format id/arity of the first and of every format statement, arguments of the first */
-int g_fmt_calls; int g_first_nargs; uint64_t g_first_args[8]; int g_cur; int g_nargs_cur;
+int g_fmt_calls; int g_first_nargs; uint64_t g_first_args[8]; int g_cur; int g_nargs_cur; bool g_fmt_truncates;
+#define EV_TRUNCATES() do { g_fmt_truncates = true; } while (0)   /* a string directive with a precision: the column may be cut short */
 #define EV_FMT(F, n) do { g_fmt_calls++; g_nargs_cur = 0; g_cur = g_fmt_calls; if (g_fmt_calls == 1) g_first_nargs = (n); } while (0)
 #define EV_ARG(x) do { uint64_t v_ = (uint64_t)(x); if (g_cur == 1 && g_nargs_cur < 8) g_first_args[g_nargs_cur] = v_; g_nargs_cur++; } while (0)
 /* std::map<std::string,unsigned> debugInfoMap[name]: the offset recorded for that name. Assumed: names are unique
@@ -274,7 +275,7 @@ def hidden_text(chk, m, names):
     # hidden state: anything the interpreter carries from one step to the next beyond the architectural state the
     # harnesses know about (extra scalar members of Processor, scalar locals of run() declared before its loop)
     defaults = names.get("__defaults__", {})
-    extra = [(n, ty) for n, ty in names.items() if n not in KNOWN_FIELDS and n != "__defaults__" and ty in simx.SCALAR_TYPES.values()]
+    extra = [(n, ty) for n, ty in names.items() if n not in KNOWN_FIELDS and not n.startswith("__") and ty in simx.SCALAR_TYPES.values()]
     inits = dict(defaults)
     if extra:
         for n, v in simx.ctor_items(m):
@@ -300,7 +301,7 @@ def unit_text(chk, with_trace=False, with_load=False, lookup_contract=True, ctor
     io, in_ty = simx.io_fns(m)
     sysc = simx.syscall_fn(m, in_ty)
     cond, step, ret = simx.run_parts(m)
-    text = PRELUDE.replace('#include "isa.h"\n', '#include "isa.h"\n' + en, 1) + fld + (accessors or ACCESSORS) + io + sysc
+    text = PRELUDE.replace('#include "isa.h"\n', '#include "isa.h"\n' + en, 1) + fld + (accessors or ACCESSORS) + names.get("__helpers__", "") + io + sysc
     if with_trace:
         text += TRACE_GHOST + simx.lookupSymbol_fn(m, lookup_contract) + simx.trace_fns(m) + "#define WITH_TRACE 1\n"
     if ctor:
